@@ -386,6 +386,171 @@ def soloPass (T : Tables) (auto : Bool) (cls0 : List String) (s : Setting α) (c
       | none => .err
       | some θ => .pass v (some θ) (PyNum.nat 0 + θ) (marksOut T.marks cls0 θ)
 
+
+/-! ## the pre-processor chain of `Unit.init_solve`
+
+A roll pass class may carry further pre-processor factories besides `rotator_factory` (plug-ins register them on
+`BaseRollPass` / `SymmetricRollPass` / `TwoRollPass` / own subclasses); `_yield_pre_processors` yields them base class
+first.  `init_solve` runs them in that order; what arrives as in profile of the pass is decided by the loop below. -/
+
+/-- the loop of `init_solve`, generic in the profile type `P`.  `orig` is the profile given to `init_solve`, the first
+explicit argument the profile produced so far; an entry `none` of the list = the factory returned `None`, `some f` = the
+factory returned a unit whose `solve` maps the profile handed to it to `f profile`.  Result `none` = the loop raises. -/
+def runPre {P : Type} (F : FlowSpec) (orig : P) : P → List (Option (P → P)) → Option P
+  | cur, [] => some cur
+  | cur, none :: ps => if F.skipsNone then runPre F orig cur ps else none
+  | cur, some f :: ps => runPre F orig (f (if F.chains then cur else orig)) ps
+
+/-- `self.in_profile = self.InProfile(self, <what the loop produced>)` -/
+def initSolve {P : Type} (F : FlowSpec) (pres : List (Option (P → P))) (p : P) : Option P :=
+  (runPre F p p pres).map (fun r => if F.inFromChain then r else p)
+
+/-- the pre-processor factories the model distinguishes -/
+inductive PreKind where
+  /-- `rotator_factory` -/
+  | factory
+  /-- returns a unit that hands back a NEW profile with the section and the classifiers it was given -/
+  | neutral
+  /-- returns `None` -/
+  | absent
+  deriving DecidableEq, Repr
+
+/-- the part of a profile the property talks about -/
+structure Prof (α : Type) where
+  turn : α
+  cls : List String
+  deriving Repr
+
+/-- what the unit made by a factory does to the profile handed to it; `θ` = angle of the auto-rotator (`none` = the
+rotator factory returned `None`) -/
+def preFn (T : Tables) (θ : Option α) : PreKind → Option (Prof α → Prof α)
+  | .factory => θ.map (fun θ p => { turn := p.turn + θ, cls := marksOut T.marks p.cls θ })
+  | .neutral => some id
+  | .absent => none
+
+/-- entry of a roll pass whose class carries the pre-processors `pres` (in yield order); the value of `rotation` and the
+auto-rotator's angle are those of `enterPass` (neutral pre-processors leave the classifiers the rule table reads
+unchanged), the in profile is what the loop of `init_solve` makes of the chain -/
+def applyPre (F : FlowSpec) (T : Tables) (st : St α) (pres : List PreKind) : Obs α → Obs α
+  | .pass v a _ _ =>
+    match initSolve F (pres.map (preFn T a)) ({ turn := st.turn, cls := st.cls } : Prof α) with
+    | some p => .pass v a p.turn p.cls
+    | none => .err
+  | o => o
+
+def enterPassWith (F : FlowSpec) (T : Tables) (auto : Bool) (st : St α) (s : Setting α) (c : List String)
+    (pres : List PreKind) : Obs α :=
+  applyPre F T st pres (enterPass T auto st s c)
+
+/-! ## histories: the value cache of `rotation` survives between solves
+
+`Hook.__get__` stores a value that came from the hook functions in `instance.__cache__`; `Unit.solve` calls `init_solve`
+(which runs `rotator_factory`) BEFORE the first `reevaluate_cache()` of the solution loop.  A roll pass that was solved
+before therefore enters `rotator_factory` with the value cached by the earlier solve, unless the factory discards it
+(`CacheSpec.factoryDropsCache`, read from the source).  Roll passes get an identity (`Slot.id`) so that a sequence can be
+edited between solves (units inserted, removed, replaced, settings changed, the switch toggled) while the passes keep
+their caches. -/
+
+/-- treatment of the cached `rotation` value, as data (generated) -/
+structure CacheSpec where
+  /-- `rotator_factory` starts with `roll_pass.__cache__.pop("rotation", None)` -/
+  factoryDropsCache : Bool
+  deriving DecidableEq, Repr
+
+/-- a unit with the identity of the object (only the identity of roll passes matters) -/
+structure Slot (α : Type) where
+  id : Nat
+  u : U α
+  /-- for a roll pass: the pre-processor factories of its class in yield order (a plain pass: `[.factory]`) -/
+  pres : List PreKind := [.factory]
+  deriving Repr
+
+/-- `__cache__["rotation"]` of the roll passes, by identity (absent = nothing cached) -/
+abbrev Store := List (Nat × Bool)
+
+def Store.get (s : Store) (i : Nat) : Option Bool := List.lookup i s
+def Store.erase (s : Store) (i : Nat) : Store := s.filter (fun e => e.1 != i)
+def Store.set (s : Store) (i : Nat) (b : Bool) : Store := (i, b) :: Store.erase s i
+
+/-- value the hook FUNCTIONS of `BaseRollPass.rotation` give (`Hook.get_result`), `none` = no function provides one -/
+def fnValue (T : Tables) (auto hasParent : Bool) (before : List Kind) : Option Bool :=
+  firstFn T.walk auto hasParent before T.rotationFns.reverse
+
+/-- the value `rotator_factory` sees: explicit, else (unless discarded) the cached one, else from the functions -/
+def entryValue (T : Tables) (C : CacheSpec) (auto : Bool) (before : List Kind) (s : Setting α) (cached : Option Bool) :
+    Option (RotVal α) :=
+  match s with
+  | .unset =>
+    if C.factoryDropsCache then rotationValue T auto true before .unset
+    else match cached with
+      | some b => some (RotVal.ofBool b)
+      | none => rotationValue T auto true before .unset
+  | s => rotationValue T auto true before s
+
+/-- `__cache__["rotation"]` after the pass has been solved (`reevaluate_cache` in its solution loop recomputes every cached
+hook from the functions; an explicit setting is never cached) -/
+def cacheAfter (T : Tables) (C : CacheSpec) (auto : Bool) (before : List Kind) (s : Setting α) (cached : Option Bool) :
+    Option Bool :=
+  match s with
+  | .unset => fnValue T auto true before
+  | _ => if C.factoryDropsCache then none else (if cached.isSome then fnValue T auto true before else none)
+
+/-- `enterPass` for a given value of `rotation` -/
+def enterPassV (T : Tables) (st : St α) (v : Option (RotVal α)) (c : List String) : Obs α :=
+  match v with
+  | none => .err
+  | some v => match factory T.factory v with
+    | none => .pass v none st.turn st.cls
+    | some a => match resolveAngle T a st.cls (some c) with
+      | none => .err
+      | some θ => .pass v (some θ) (st.turn + θ) (marksOut T.marks st.cls θ)
+
+/-- one outer iteration of a sequence's solution loop over units with identity, threading the caches -/
+def goH (F : FlowSpec) (T : Tables) (C : CacheSpec) (auto : Bool) :
+    Store → St α → List (Slot α) → List (Obs α) × Store
+  | store, _, [] => ([], store)
+  | store, st, ⟨i, .pass s c, pres⟩ :: us =>
+    let o := applyPre F T st pres (enterPassV T st (entryValue T C auto st.before s (store.get i)) c)
+    if o.isErr then ([o], store) else
+      let store' := match cacheAfter T C auto st.before s (store.get i) with
+        | some b => store.set i b
+        | none => store.erase i
+      let r := goH F T C auto store' { before := .pass :: st.before, cls := c, turn := PyNum.nat 0 } us
+      (o :: r.1, r.2)
+  | store, st, ⟨_, .rotator a, _⟩ :: us =>
+    match resolveAngle T a st.cls (nextPassCls (us.map Slot.u)) with
+    | none => ([.err], store)
+    | some θ =>
+      let r := goH F T C auto store
+        { before := .rotator :: st.before, cls := marksOut T.marks st.cls θ, turn := st.turn + θ } us
+      (.rotator θ (marksOut T.marks st.cls θ) :: r.1, r.2)
+  | store, st, ⟨_, .transport, _⟩ :: us =>
+    let r := goH F T C auto store { st with before := .transport :: st.before } us
+    (.skip :: r.1, r.2)
+  | store, st, ⟨_, .other, _⟩ :: us =>
+    let r := goH F T C auto store { st with before := .other :: st.before } us
+    (.skip :: r.1, r.2)
+
+/-- `Unit.solve` of the sequence: `extra + 1` outer iterations; the observations of the LAST one are the final state -/
+def solveH (F : FlowSpec) (T : Tables) (C : CacheSpec) (auto : Bool) :
+    Nat → Store → St α → List (Slot α) → List (Obs α) × Store
+  | 0, store, st, us => goH F T C auto store st us
+  | n + 1, store, st, us => solveH F T C auto n (goH F T C auto store st us).2 st us
+
+/-- a history: each step is one `solve` of the (edited) sequence — switch value, extra iterations, arrangement -/
+structure Step (α : Type) where
+  auto : Bool
+  extra : Nat
+  us : List (Slot α)
+
+/-- run a history from the given caches; one list of final observations per solve -/
+def runHistory (F : FlowSpec) (T : Tables) (C : CacheSpec) (cls0 : List String) :
+    Store → List (Step α) → List (List (Obs α))
+  | _, [] => []
+  | store, h :: hs =>
+    let r := solveH F T C h.auto h.extra store { before := [], cls := cls0, turn := PyNum.nat 0 } h.us
+    r.1 :: runHistory F T C cls0 r.2 hs
+
 end num
 
 end Rot
